@@ -114,31 +114,37 @@ theorem used_is_sum_of_grants (c : Nat) (s : S) (h : Reachable c s) (x : Nat) :
     gsum s.ticks x s.glog ≤ s.used x ∧ (x < s.n → resets s x = true → gsum s.ticks x s.glog = s.used x) :=
   ⟨(grantInv h).cur_le x, (grantInv h).cur_eq x⟩
 
-/-- a positive amount is never granted to a limiter that is closed at that moment -/
-theorem closed_never_granted (s s' : S) (st : Step s s') (g : Grant) (hg : g ∈ s'.glog) (hnew : g ∉ s.glog)
-    (hpos : 0 < g.amt) : s.closed g.lim = false := by
-  rcases grant_open st g hg with h | h | h
+/-- nothing — not even an amount of 0 — is ever granted to a limiter that is closed at that moment -/
+theorem closed_never_granted (s s' : S) (st : Step s s') (g : Grant) (hg : g ∈ s'.glog) (hnew : g ∉ s.glog) :
+    s.closed g.lim = false := by
+  rcases grant_open st g hg with h | h
   · exact absurd h hnew
-  · omega
   · exact h
 
-/-- **immediate errors**: a negative amount, an amount above the limiter's own cap, and a closed limiter are answered
-    at once with the corresponding error, and nothing is queued -/
+/-- **immediate errors**: a negative amount is refused; on a closed limiter EVERY non-negative amount (0 included) is
+    answered "closed"; on an open limiter an amount above its own cap is answered with the cap error — all at once,
+    nothing is queued, nothing is charged -/
 theorem immediate_errors (c : Nat) (s : S) (h : Reachable c s) (l : Nat) (amt : Int) (hl : l < s.n) :
     (amt < 0 → exec s (.use l amt) = answer s .errNeg) ∧
-    (0 < amt → s.closed l = true → exec s (.use l amt) = answer s .errClosed) ∧
+    (0 ≤ amt → s.closed l = true → exec s (.use l amt) = answer s .errClosed) ∧
     (0 < amt → s.closed l = false → amt.toNat > s.cap l → exec s (.use l amt) = answer s .errCap) := by
   have hlk : s.lockHeld = false := lockFree h
   refine ⟨?_, ?_, ?_⟩
   · intro ha; simp [exec, hl, ha]
   · intro ha hc
     have h1 : ¬ amt < 0 := by omega
-    have h2 : ¬ amt = 0 := by omega
-    simp [exec, hl, h1, h2, hlk, hc]
+    simp [exec, hl, h1, hlk, hc]
   · intro ha hc hb
     have h1 : ¬ amt < 0 := by omega
     have h2 : ¬ amt = 0 := by omega
     simp [exec, hl, h1, h2, hlk, hc, hb]
+
+/-- `Use(0)` on an open limiter answers nil at once (a grant of 0: no limiter's `used` changes) -/
+theorem use_zero_open (c : Nat) (s : S) (h : Reachable c s) (l : Nat) (hl : l < s.n) (ho : s.closed l = false) :
+    exec s (.use l 0) = doUseZero s l ∧ (doUseZero s l).used = s.used ∧ (doUseZero s l).waiting = s.waiting := by
+  have hlk : s.lockHeld = false := lockFree h
+  refine ⟨?_, rfl, rfl⟩
+  simp [exec, hl, hlk, ho]
 
 /-- the other two outcomes of `Use`: granted at once exactly when there is room along the whole chain, queued (at
     the end of the queue) otherwise -/
